@@ -185,6 +185,26 @@ def inject(scratch, files, btree):
     return done
 
 
+def validate_models():
+    """M-BTREE validation: the repository's own unit tests against the substituted build."""
+    scratch = make_scratch("models")
+    try:
+        substitute_btree(scratch)
+        env = dict(os.environ)
+        env["CARGO_NET_OFFLINE"] = "true"
+        env["CARGO_TARGET_DIR"] = os.path.join(scratch, "tt")
+        env["RUST_MIN_STACK"] = "1073741824"   # the inline maps are large
+        p = subprocess.run(["cargo", "test", "--offline", "--lib"], cwd=scratch, env=env,
+                           stdout=subprocess.PIPE, stderr=subprocess.STDOUT, text=True, timeout=1800)
+        m = re.search(r"test result: (\w+)\. (\d+) passed; (\d+) failed", p.stdout)
+        if not m:
+            return False, "no test result: " + p.stdout[-400:]
+        ok = m.group(1) == "ok" and int(m.group(3)) == 0
+        return ok, "%s passed, %s failed with M-BTREE substituted" % (m.group(2), m.group(3))
+    finally:
+        shutil.rmtree(scratch, ignore_errors=True)
+
+
 # --------------------------------------------------------------------------------------
 # Running Kani
 # --------------------------------------------------------------------------------------
@@ -600,6 +620,13 @@ def run_check(prop, tier, seed, extra_engines=None, only=None):
                     r.status = "undecided"
                     r.reason = "counterexample did not reproduce natively (encoding/stub suspect)"
                     inconclusive.append("%s: counterexample not reproduced" % h.name)
+        model_validation = None
+        if hs and tier == "thorough" and any(h.attrs.get("btree", "yes") != "no" for h in hs):
+            ok, what = validate_models()
+            model_validation = what
+            log("model validation: " + what)
+            if not ok:
+                inconclusive.append("M-BTREE validation failed: " + what)
         extra = []
         if extra_engines:
             for eng in extra_engines:
@@ -741,7 +768,8 @@ def assumptions_for(prop, hs):
         a.append("stubs/models in force: " + ", ".join(stubs) + " (see DESIGN.md section 1.2)")
     if any(h.attrs.get("btree", "yes") != "no" for h in hs):
         a.append("M-BTREE: std BTreeMap/BTreeSet replaced by the sorted-Vec model models/verif_btree.rs in the "
-                 "scratch copy (validated by the repo's unit tests: bin/check --validate-models)")
+                 "scratch copy (validated by the repo's unit tests: `bin/check X --validate-models`, run "
+                 "automatically in the thorough tier)")
     return a
 
 
@@ -752,7 +780,12 @@ def main(argv):
     ap.add_argument("--tier", default=os.environ.get("VERIF_TIER", "quick"))
     ap.add_argument("--replay")
     ap.add_argument("--only", action="append")
+    ap.add_argument("--validate-models", action="store_true")
     args = ap.parse_args(argv)
+    if args.validate_models:
+        ok, what = validate_models()
+        log(what)
+        return 0 if ok else 2
     seed = int(os.environ.get("VERIF_SEED", "0") or 0)
     if args.replay:
         return do_replay(args.prop, args.replay)
